@@ -76,6 +76,9 @@ def _interp_lmfit(ctx: Ctx, model):
         want = {"k": {"value": 3.0, "min": 0}, "C_0": {"value": 2e-6, "min": 1e-9, "max": 1.0, "vary": False}, "R_1": {"value": 7.0, "min": -math.inf, "max": 10.0, "vary": True},
                 "R_0": {"value": 5.0, "min": 0.0, "max": math.inf, "vary": True, "expr": "2 * R_1 + k"}}
         got = res.added if isinstance(res, _Params) else res
+        if isinstance(got, dict):
+            # only what the property speaks of is compared: value, bounds, vary and the constraint (None ≡ not given)
+            got = {k: {a: b for a, b in v.items() if a in ("value", "min", "max", "vary", "expr") and b is not None} if isinstance(v, dict) else v for k, v in got.items()}
         if got != want:
             diff = {k: (got.get(k) if isinstance(got, dict) else got, want[k]) for k in want if not isinstance(got, dict) or got.get(k) != want[k]}
             to_p.append(f"for two elements with a constraint R_0 = 2*R_1 + k lmfit receives {str(diff)[:260]} (got, expected): every parameter must be added once with its own value, limits, vary = not fixed and its constraint")
